@@ -5,8 +5,15 @@ by the elapsed time computed from the generated integer milliseconds.  Nothing o
 to compute an expected value."""
 import itertools
 import math
+import numbers
 
+import numpy as np
 from hypothesis import strategies as st
+
+from tracklib.core.obs import Obs
+from tracklib.core.obs_coords import ENUCoords
+from tracklib.core.obs_time import ObsTime
+from tracklib.core.track import Track
 
 from tracklib.algo.analytics import ds as af_ds, speed as af_speed
 from tracklib.algo.cinematics import computeAbsCurv
@@ -15,6 +22,9 @@ from vt import gen
 from vt.core import HarnessError, SubCheck, Violation, same
 
 REL = 1e-9                      # stated tolerance, relative to the quantity compared
+REL_F32 = 1e-6                  # ... when the coordinates are numpy float32 scalars: the library's differences and squares
+                                # are then numpy float32 operations (2^-24 = 6e-8 each)
+INT32_MAX_MS = (2 ** 31 - 86400) * 1000
 EPS = 2.0 ** -52
 DT_ERR = 1e-6                   # tracklib forms dt as a difference of float epoch seconds (~4e9 s, ulp 4.8e-7 s):
                                 # only when every timestamp is a multiple of 125 ms are those floats exact
@@ -30,6 +40,14 @@ ASSUMPTIONS = [
     "before the extract and is not 0); a hand-written ds with arbitrary numbers is outside the property",
     "abs_curv is not present before the first computeAbsCurv call (a stale abs_curv is returned as is, by design of the API)",
     "features other than abs_curv / speed / ds are carried along but nothing is demanded of them",
+    "number types (case['cnum'], case['tnum']): the coordinates are handed to ENUCoords as Python floats, as Python ints where "
+    "integer-valued, as numpy float64 scalars, or as numpy float32 scalars (the case's numbers are first rounded to float32 - "
+    "those values are the track; tolerance 1e-6 relative instead of 1e-9 because the library then computes differences and "
+    "squares in float32); the timestamp fields are handed to ObsTime as Python ints, or the seconds field / all seven fields "
+    "as numpy int64 or int32 scalars (a column of a numpy array or a pandas frame).  int32 fields only for tracks that end "
+    "before 2038-01-18 (epoch seconds must fit the field's own type: numpy raises OverflowError on int32 arithmetic beyond, "
+    "such a case is answered undef).  The oracle always works on the plain numbers of the case; a numpy scalar as feature "
+    "value is accepted as a number; NaN is demanded for a zero elapsed time whatever the types",
     "two-object histories (case['part']): a second Track object is derived from the track by extract / slice / > / < / % "
     "(it shares the Obs objects, and tracklib stores feature values positionally in the Obs) and the operations of the "
     "script are applied to the part ('@p') or to the whole in any order; each track is judged against its own fixes. "
@@ -61,10 +79,49 @@ def _model(pts, times):
 
 
 def _num(v):
-    return isinstance(v, (int, float)) and not isinstance(v, bool)
+    return isinstance(v, numbers.Real) and not isinstance(v, (bool, np.bool_))
 
 
-def _check_abscurv(S, legs, cum, what):
+# --- number types -----------------------------------------------------------------------------------
+CNUMS = ("float", "int", "np64", "np32")
+TNUMS = ("py", "int64:sec", "int64:all", "int32:sec", "int32:all")
+
+
+def _coord_of(v, cnum):
+    if cnum == "int":
+        return gen.as_int_if_integral(v)
+    if cnum == "np64":
+        return np.float64(v)
+    if cnum == "np32":
+        return np.float32(v)
+    return v
+
+
+def _obstime(ms, tnum):
+    f = gen.fields_of_ms(ms)
+    if tnum == "py":
+        return ObsTime(*f)
+    typ = np.int64 if tnum.startswith("int64") else np.int32
+    if tnum.endswith(":sec"):
+        return ObsTime(f[0], f[1], f[2], f[3], f[4], typ(f[5]), f[6])
+    return ObsTime(*[typ(v) for v in f])
+
+
+def _make_track(pts, times, feats, cnum, tnum):
+    """like gen.make_track, with the number types of the case"""
+    tr = Track([], 1)
+    for p, t in zip(pts, times):
+        tr.addObs(Obs(ENUCoords(_coord_of(p[0], cnum), _coord_of(p[1], cnum), _coord_of(p[2], cnum)), _obstime(t, tnum)))
+    for name, vals in (feats or {}).items():
+        tr.createAnalyticalFeature(name, list(vals))
+    return tr
+
+
+def _ms_of(t):
+    return gen.ms_of_fields(int(t.year), int(t.month), int(t.day), int(t.hour), int(t.min), int(t.sec), int(t.ms))
+
+
+def _check_abscurv(S, legs, cum, what, REL=REL):
     n = len(cum)
     if len(S) != n:
         raise Violation("abscurv-length", "%s: %d values for %d fixes" % (what, len(S), n))
@@ -87,7 +144,7 @@ def _check_abscurv(S, legs, cum, what):
         raise Violation("abscurv-total-wrong", "%s: last = %r, planimetric length = %r" % (what, S[-1], cum[-1]))
 
 
-def _check_speed(V, spd, exact, what):
+def _check_speed(V, spd, exact, what, REL=REL):
     n = len(spd)
     if len(V) != n:
         raise Violation("speed-length", "%s: %d values for %d fixes" % (what, len(V), n))
@@ -158,6 +215,7 @@ class _Side:
         self.label, self.tr, self.pts, self.times, self.names = label, tr, pts, times, names
         self.legs, self.cum, self.spd = _model(pts, times)
         self.exact = all(t % 125 == 0 for t in times)
+        self.rel = REL
         self.first_abs = None
         self.judged = 0
         self.other = None
@@ -174,11 +232,20 @@ def _run(case):
     part: None | {'how': extract|slice|gt|lt|mod, 'a', 'b', 'at'}: before operation number 'at' a second Track object is
     derived from the track (it shares the Obs objects); an operation 'xxx@p' is applied to the derived part, 'xxx' to the
     whole track"""
-    pts = [tuple(float(c) for c in p) for p in case["pts"]]
+    cnum, tnum = case.get("cnum", "float"), case.get("tnum", "py")
+    if cnum not in CNUMS or tnum not in TNUMS:
+        return {"undef": True}
+    as_case = (lambda c: float(np.float32(c))) if cnum == "np32" else float       # float32 scalars: the rounded values are the track
+    rel = REL_F32 if cnum == "np32" else REL
+    pts = [tuple(as_case(c) for c in p) for p in case["pts"]]
+    if not all(math.isfinite(c) for p in pts for c in p):
+        return {"undef": True}
     n = len(pts)
     times = [case["t0"]]
     for d in case["dts"]:
         times.append(times[-1] + d)
+    if tnum.startswith("int32") and times[-1] > INT32_MAX_MS:
+        return {"undef": True, "cls": ["int32-fields-after-2038"]}
     part = case.get("part")
     ops = case["ops"]
     if part is not None and (part["at"] < 0 or any(o.endswith("@p") for o in ops[:part["at"]])):
@@ -188,14 +255,15 @@ def _run(case):
     feats = {"note": [float(7 * i) for i in range(n + 1)]} if case.get("extra") else {}
     names = {"note": "own"} if case.get("extra") else {}
     if inh:
-        lead = tuple(float(c) for c in inh["pt"])
-        parent = gen.make_track([lead] + pts, [max(times[0] - inh["dt"], 0)] + times, feats)
+        lead = tuple(as_case(c) for c in inh["pt"])
+        parent = _make_track([lead] + pts, [max(times[0] - inh["dt"], 0)] + times, feats, cnum, tnum)
         parent.addAnalyticalFeature(af_ds)
         tr = parent.extract(1, n)
         names["ds"] = "inh-ok"
     else:
-        tr = gen.make_track(pts, times, {k: v[:n] for k, v in feats.items()})
+        tr = _make_track(pts, times, {k: v[:n] for k, v in feats.items()}, cnum, tnum)
     W = _Side("whole", tr, pts, times, names)
+    W.rel = rel
     sides = {"w": W}
     cls = []
 
@@ -212,6 +280,7 @@ def _run(case):
                     part["how"], _part_indices(part, n)[1], n, sub.size(), len(idxs)))
             P = _Side("part", sub, [pts[i] for i in idxs], [times[i] for i in idxs], {k: "inh" for k in W.names})
             P.other, W.other = W, P
+            P.rel = rel
             sides["p"] = P
         name, _, tgt = op.partition("@")
         X = sides[tgt or "w"]
@@ -222,7 +291,7 @@ def _run(case):
             judged = t_abs == "own" or (t_abs is None and t_ds in (None, "own", "inh-ok"))
             S = computeAbsCurv(X.tr)
             if judged:
-                _check_abscurv(S, X.legs, X.cum, what)
+                _check_abscurv(S, X.legs, X.cum, what, X.rel)
                 stored = X.tr.getAnalyticalFeature("abs_curv")
                 if len(stored) != len(S) or not all(same(a, b) for a, b in zip(S, stored)):
                     raise Violation("abscurv-return-differs-from-feature", "%s: returned %r, stored %r" % (what, S, stored))
@@ -250,7 +319,7 @@ def _run(case):
             judged = name == "speed_add" or t_sp in (None, "own")
             V = X.tr.estimate_speed() if name == "speed_est" else X.tr.addAnalyticalFeature(af_speed)
             if judged:
-                _check_speed(V, X.spd, X.exact, what)
+                _check_speed(V, X.spd, X.exact, what, X.rel)
                 if name == "speed_add" or t_sp is None:
                     X.touch_other()
                 nm["speed"] = "own"
@@ -269,14 +338,14 @@ def _run(case):
     # fixes untouched
     for X in sides.values():
         if X.names.get("abs_curv") == "own":
-            _check_abscurv(X.tr.getAnalyticalFeature("abs_curv"), X.legs, X.cum, "feature abs_curv of the %s after %s" % (X.label, ops))
+            _check_abscurv(X.tr.getAnalyticalFeature("abs_curv"), X.legs, X.cum, "feature abs_curv of the %s after %s" % (X.label, ops), X.rel)
         if X.names.get("speed") == "own":
-            _check_speed(X.tr.getAnalyticalFeature("speed"), X.spd, X.exact, "feature speed of the %s after %s" % (X.label, ops))
+            _check_speed(X.tr.getAnalyticalFeature("speed"), X.spd, X.exact, "feature speed of the %s after %s" % (X.label, ops), X.rel)
         if X.tr.size() != len(X.pts):
             raise Violation("fixes-changed", "%s has %d fixes, had %d" % (X.label, X.tr.size(), len(X.pts)))
         for i in range(len(X.pts)):
             o = X.tr.getObs(i)
-            now = (o.position.getX(), o.position.getY(), o.position.getZ(), gen.ms_of_obstime(o.timestamp))
+            now = (o.position.getX(), o.position.getY(), o.position.getZ(), _ms_of(o.timestamp))
             was = X.pts[i] + (X.times[i],)
             if not all(same(a, b) for a, b in zip(now, was)):
                 raise Violation("fixes-changed", "fix %d of the %s is %r, was %r" % (i, X.label, now, was))
@@ -284,6 +353,15 @@ def _run(case):
 
     # classification
     cls.append("exact-times" if exact else "ms-times")
+    cls.append("coords:" + cnum)
+    cls.append("time-fields:" + tnum)
+    zero_dt_moving = any(dms == 0 and d > 0 for d, dms in spd)
+    if zero_dt_moving:
+        cls.append("dt=0-with-position-change")
+        if tnum != "py":
+            cls.append("dt=0-with-position-change+numpy-time-fields")
+    if cnum == "int" and all(c == int(c) for p in pts for c in p[:2]):
+        cls.append("coords:all-xy-int")
     if part is not None and "p" in sides:
         P = sides["p"]
         cls.append("part:" + part["how"])
@@ -344,6 +422,10 @@ def enum_small(tier):
                 yield {"pts": pts, "t0": 1577836800000, "dts": list(dts), "ops": ["abs", "speed_est"], "inherit": None,
                        "extra": False}
                 k = sum(pos) * 5 + sum(dts) // 1000 + pos[-1]
+                if n <= 3 or k % 4 == 0:           # the same track with other number types (numpy time fields, int / numpy coordinates)
+                    yield {"pts": pts, "t0": 1577836800000, "dts": list(dts), "inherit": None, "extra": False,
+                           "ops": [["abs", "speed_est"], ["speed_add", "abs"]][k % 2],
+                           "tnum": TNUMS[1 + k % 4], "cnum": CNUMS[(k // 4) % 4]}
                 if n >= 3 and k % 3 == 0:          # a third of them also as a two-object history (part, then whole)
                     yield {"pts": pts, "t0": 1577836800000, "dts": list(dts), "inherit": None, "extra": False,
                            "part": {"how": _HOWS[k // 3 % len(_HOWS)], "a": k // 15, "b": k // 7, "at": 0},
@@ -402,6 +484,12 @@ def strat_track(draw):
         inherit = {"pt": [pts[0][0] + off[0], pts[0][1] + off[1], pts[0][2] + (q // 6) % 3], "dt": [0, 1000, 125][(q // 18) % 3]}
     case = {"pts": pts, "t0": t0, "dts": dts, "ops": draw(st.sampled_from(_OPS)), "inherit": inherit,
             "extra": draw(st.booleans())}
+    nt = draw(st.integers(0, 39))                  # number types: 0..7 time fields (3 in 8 Python ints), x 5 coordinate types
+    tnum = ["py", "py", "py", "int64:sec", "int64:all", "int32:sec", "int32:all", "int64:sec"][nt % 8]
+    if tnum.startswith("int32") and t0 + sum(dts) > INT32_MAX_MS:
+        tnum = tnum.replace("int32", "int64")      # a 32-bit field cannot take part in epoch seconds after 2038
+    case["tnum"] = tnum
+    case["cnum"] = ["float", "float", "int", "np64", "np32"][nt // 8]
     if draw(st.integers(0, 9)) < 4:                # two Track objects: a part derived from the track (shares its Obs)
         pre = draw(st.sampled_from(_PRE_W))
         if draw(st.booleans()):
@@ -427,6 +515,10 @@ RULE = ("small: every track of 2..4 fixes on the corners of a 3x4 rectangle (int
         "operations on the whole track a part is derived (extract / slice / > / < / %, any bounds leaving >= 2 fixes), then 2..5 "
         "operations each on the part or on the whole (half from a list of part-then-whole / whole-then-part patterns, half "
         "free), both tracks judged. small: a third of the tracks of >= 3 fixes also as part-then-whole / whole-then-part. "
+        "Number types: every random track draws how its numbers are handed over - timestamp fields as Python ints (3 in 8), "
+        "seconds field only or all fields as numpy int64 / int32 scalars; coordinates as Python floats (2 in 5), Python ints "
+        "where integer-valued, numpy float64 or numpy float32 scalars; small: every track of 2..3 fixes (n=4: a quarter) a "
+        "second time with numpy time fields (the four variants in turn) and the four coordinate types in turn. "
         "Non-trivial: at least 3 fixes (an interior fix exists) and legs or time steps not all equal, so that off-by-one "
         "variants of the formulas give different numbers. Distinct = hash of the case.")
 
